@@ -189,7 +189,10 @@ func runGoAway(sc goawayScenario, res *caseResult) {
 				dl := curs[w].deadlineAt
 				curs[w].running = false
 				res.Counters["rpcs_returned"]++
-				if st, ok := status.FromError(err); !ok {
+				if err == io.EOF {
+					// specific class: a bare io.EOF handed to the application
+					res.Viol = append(res.Viol, [2]string{"rpc-error-without-status:bare-io.EOF", fmt.Sprintf("worker %d rpc %d (streaming=%v) returned the bare error io.EOF, which carries no status", w, k, sc.Streaming && k%2 == 1)})
+				} else if st, ok := status.FromError(err); !ok {
 					res.Viol = append(res.Viol, [2]string{"rpc-error-without-status", fmt.Sprintf("worker %d rpc %d returned an error that carries no status: %T %v", w, k, err, err)})
 				} else {
 					res.Counters["rpc_code_"+st.Code().String()]++
